@@ -56,7 +56,7 @@ Proof.
     unfold ss_step, ss_protect, ss_two64.
     unfold ss_M in *.
     rewrite (Z.mod_small (ss_seq (ss_cur y) + 1)) by lia.
-    destruct (ss_seq (ss_cur y) + 1 >=? ss_seq_max) eqn:Emax.
+    destruct (ss_seq (ss_cur y) + 1 >? ss_seq_max) eqn:Emax.
     + (* exhausted: nothing is sent *)
       unfold ss_inv, ss_lb. cbn [ss_cur ss_saved ss_seq ss_next ss_freq].
       unfold ss_M. repeat split; try lia.
@@ -118,10 +118,10 @@ Qed.
 (* every Partial IV on the wire is a valid sequence number (below OSCORE_SEQ_MAX) *)
 Lemma ss_protect_piv_small : forall s p sv s1,
   0 <= ss_seq s -> ss_seq s + 1 < ss_two64 ->
-  ss_protect s = (Some p, sv, s1) -> p = ss_seq s /\ p + 1 < ss_seq_max.
+  ss_protect s = (Some p, sv, s1) -> p = ss_seq s /\ p < ss_seq_max.
 Proof.
   intros s p sv s1 H0 H1. unfold ss_protect.
   rewrite (Z.mod_small (ss_seq s + 1)) by lia.
-  destruct (ss_seq s + 1 >=? ss_seq_max) eqn:E; [discriminate|].
+  destruct (ss_seq s + 1 >? ss_seq_max) eqn:E; [discriminate|].
   destruct (ss_seq s + 1 >? ss_next s); intros H; inversion H; subst; lia.
 Qed.
